@@ -27,24 +27,24 @@ def patByte (seed i : Nat) : UInt8 :=
   let x := (seed * 1103515245 + 12345 + i * 2654435761) % 4294967296
   UInt8.ofNat ((x / 65536) % 256)
 
-/-- byte-string argument: `-` empty, hex, `@seed:len` pseudo-random pattern, `=bb:len` repeated byte,
-    `%seed:len:period` pattern repeating with a period (compressible); `+`-joined concatenation -/
+/-- byte-string argument: `-` empty, hex, `@seed~len` pseudo-random pattern, `=bb~len` repeated byte,
+    `%seed~len~period` pattern repeating with a period (compressible); `+`-joined concatenation -/
 def parseBytes1 (s : String) : Option Bytes :=
   if s == "-" then some []
   else if s.startsWith "@" then
-    match (s.drop 1).toString.splitOn ":" with
+    match (s.drop 1).toString.splitOn "~" with
     | [a, b] => match a.toNat?, b.toNat? with
       | some seed, some len => some ((List.range len).map (patByte seed))
       | _, _ => none
     | _ => none
   else if s.startsWith "=" then
-    match (s.drop 1).toString.splitOn ":" with
+    match (s.drop 1).toString.splitOn "~" with
     | [a, b] => match parseHexGo a.toList [], b.toNat? with
       | some [x], some len => some (List.replicate len x)
       | _, _ => none
     | _ => none
   else if s.startsWith "%" then
-    match (s.drop 1).toString.splitOn ":" with
+    match (s.drop 1).toString.splitOn "~" with
     | [a, b, c] => match a.toNat?, b.toNat?, c.toNat? with
       | some seed, some len, some per =>
         if per == 0 then none else some ((List.range len).map (fun i => patByte seed (i % per)))
